@@ -53,6 +53,9 @@ def gen_filter(rng, depth, st):
             return ("tag",)
         if st["leaves"] < 3 and (st["null_used"] or rng.random() < 0.85):
             st["leaves"] += 1
+            # a user filter built on top of the library's threshold filter (public base) with a condition of its own
+            if st.get("tag_ok") and rng.random() < 0.2:
+                return ("strict", st["leaves"] - 1)
             return ("sev", st["leaves"] - 1)
         if not st["null_used"]:
             st["null_used"] = True
@@ -78,6 +81,10 @@ def filter_cpp(t):
         return "nitro::log::filter::null_filter<R>"
     if t[0] == "tag":
         return "TagFilter<R>"
+    if t[0] == "strict":
+        return f"StrictFilter<R, {t[1]}>"
+    if t[0] == "budget":
+        return "BudgetFilter<R>"
     if t[0] == "not":
         return f"nitro::log::filter::not_filter<{filter_cpp(t[1])}>"
     return f"nitro::log::filter::{t[0]}_filter<{filter_cpp(t[1])}, {filter_cpp(t[2])}>"
@@ -90,6 +97,10 @@ def filter_str(t):
         return "true"
     if t[0] == "tag":
         return "tag!=mute"
+    if t[0] == "strict":
+        return f"(s>=T{t[1]} && tag!=mute)[derived from severity_filter]"
+    if t[0] == "budget":
+        return f"(s>=error || one of the first {t[1]} asked)[stateful filter object]"
     if t[0] == "not":
         return f"!({filter_str(t[1])})"
     return f"({filter_str(t[1])} {'&&' if t[0] == 'and' else '||'} {filter_str(t[2])})"
@@ -102,6 +113,10 @@ def filter_eval(t, s, th, tag=""):
         return True
     if t[0] == "tag":
         return tag != "mute"
+    if t[0] == "strict":
+        return s >= th[t[1]] and tag != "mute"
+    if t[0] == "budget":
+        raise RuntimeError("a stateful filter is simulated by the caller")
     if t[0] == "not":
         return not filter_eval(t[1], s, th, tag)
     if t[0] == "and":
@@ -110,7 +125,7 @@ def filter_eval(t, s, th, tag=""):
 
 
 def filter_ops(t):
-    if t[0] in ("sev", "null", "tag"):
+    if t[0] in ("sev", "null", "tag", "strict", "budget"):
         return 0
     return 1 + sum(filter_ops(x) for x in t[1:])
 
@@ -149,6 +164,11 @@ def gen_program(seed, prop):
     st = {"leaves": 0, "null_used": False, "tag_ok": p["has_tag"]}
     p["filter"] = gen_filter(rng, rng.choice([0, 1, 2, 3, 3, 3]), st) or ("null",)
     p["leaves"] = st["leaves"]
+    # now and then the filter is an object with state of its own: it lets records below error through only
+    # the first few times it is asked
+    if rng.random() < 0.06:
+        p["filter"] = ("budget", rng.choice([1, 2, 3, 5]))
+        p["leaves"] = 0
     p["nsinks"] = rng.choice([0, 1, 2, 3, 4])  # 0 = a plain sink, not a sequence
     p["nested"] = p["nsinks"] >= 3 and rng.random() < 0.4  # sequence<S0, sequence<S1>, S2...>
     # one sink member reports every record it receives with a log statement of its own (an audit
@@ -273,6 +293,13 @@ def program_cpp(p):
     if p["has_tag"]:
         a("template <typename R> struct TagFilter { typedef R record_type; "
           "bool filter(R& r) const { return r.tag() != \"mute\"; } };\n")
+        a("template <typename R, unsigned N> struct StrictFilter : public nitro::log::filter::severity_filter<R, N> "
+          "{ typedef R record_type; bool filter(R& r) const { return nitro::log::filter::severity_filter<R, N>::filter(r) "
+          "&& r.tag() != \"mute\"; } };\n")
+    if p["filter"][0] == "budget":
+        a("template <typename R> struct BudgetFilter { typedef R record_type; mutable int left = %d; "
+          "bool filter(R& r) const { if (static_cast<int>(r.severity()) >= 4) return true; "
+          "if (left > 0) { --left; return true; } return false; } };\n" % p["filter"][1])
     a("template <typename R> using Filter = %s;\n" % filter_cpp(p["filter"]))
     if p["nsinks"] == 0:
         sink = "RecSink<0>"
@@ -542,6 +569,16 @@ def check_program(p, src_root, workdir, name, stats=None):
     prop = p["prop"]
     pos = 0
     evaluations = 0
+    budget = {"left": p["filter"][1]} if p["filter"][0] == "budget" else None
+
+    def ask(sev):
+        """the stateful filter object is asked about a record of that severity"""
+        if sev >= 4:
+            return True
+        if budget["left"] > 0:
+            budget["left"] -= 1
+            return True
+        return False
     for th in thresholds(p["leaves"]):
         head = "T" + "".join(f" {t}" for t in th)
         if pos >= len(lines) or lines[pos] != head:
@@ -563,10 +600,20 @@ def check_program(p, src_root, workdir, name, stats=None):
             # C05 decides "enabled" with the reference model of the filter tree; C10 is stated
             # relative to the decision of the real filter ("a statement rejected by the runtime
             # filter ..."), so a wrong filter is C05's finding, not C10's
-            enabled, want = expected_events(p, s, k, th,
-                                            None if prop == "C05" else real_filter_accepts,
-                                            None if prop == "C05" else real_filter_accepts_inner,
-                                            None if prop == "C05" else real_filter_accepts_audit)
+            if budget is not None:
+                # the filter is asked in this order: by the statement (if it exists at this compile-time
+                # minimum), by the statement inside it, then twice by the probes behind the statement
+                d_outer = ask(s["sev"]) if s["sev"] >= p["min"] else False
+                ist = s["inner"]["stmt"] if s.get("inner") else None
+                d_inner = (ask(ist["sev"]) if ist["sev"] >= p["min"] else False) if ist else None
+                ask(s["sev"])
+                ask(ist["sev"] if ist else s["sev"])
+                enabled, want = expected_events(p, s, k, th, d_outer, d_inner, True)
+            else:
+                enabled, want = expected_events(p, s, k, th,
+                                                None if prop == "C05" else real_filter_accepts,
+                                                None if prop == "C05" else real_filter_accepts_inner,
+                                                None if prop == "C05" else real_filter_accepts_audit)
             evaluations += 1
             if stats is not None:
                 ncall = sum(1 for i in s["items"] if i["kind"].startswith("call"))
